@@ -170,9 +170,9 @@ func runBehaviour(b *Behaviour, opts *MatOpts, src string, onCall func(k int, c 
 				gone[tr.flowIdx[w.FlowReference().UUID]] = true
 			case "parent_gone":
 				gone[c.F] = true
-			case "node_gone", "wait_gone", "wait_dial":
+			case "node_gone", "pnode_gone", "wait_gone", "wait_dial":
 				switch c.Kind {
-				case "node_gone":
+				case "node_gone", "pnode_gone":
 					b.Def[c.F-1][c.N-1].Kind = "gone"
 				case "wait_gone":
 					b.Def[c.F-1][c.N-1].Kind = "split"
@@ -255,6 +255,15 @@ func forEachLine(path string, shard, nshards int, fn func(i int, data []byte) er
 	return sc.Err()
 }
 
+// pathsOf: per run the flow, the status and the (node, exit) steps - what the routers decided
+func pathsOf(p Proj) []M {
+	out := []M{}
+	for _, r := range p.Runs {
+		out = append(out, M{"flow": r.Flow, "status": r.Status, "path": r.Path})
+	}
+	return out
+}
+
 func engReplay(args []string) error {
 	fs := flag.NewFlagSet("eng-replay", flag.ExitOnError)
 	in := fs.String("in", "", "behaviours ndjson")
@@ -263,7 +272,16 @@ func engReplay(args []string) error {
 	nshards := fs.Int("nshards", 1, "")
 	statsPath := fs.String("stats", "", "stats json output")
 	iout := fs.String("inspect", "", "also write the inspection trace (C20) here")
+	pdout := fs.Bool("pathdrift", false, "write to <out>.pd one JSON line per call after which the runs' paths (nodes and exits taken) differ from the specification's (C07)")
 	fs.Parse(args)
+	var pdw *os.File
+	if *pdout {
+		var err error
+		if pdw, err = os.Create(*out + ".pd"); err != nil {
+			return err
+		}
+		defer pdw.Close()
+	}
 
 	lw, f, err := newLineWriter(*out)
 	if err != nil {
@@ -301,6 +319,13 @@ func engReplay(args []string) error {
 			lw.write(src, line, func(s string) { line.Src = s })
 			if k < len(b.Exps) {
 				got := modelProj(line, b.NNodes)
+				if pdw != nil {
+					gp, ep := pathsOf(got), pathsOf(b.Exps[k])
+					if !reflect.DeepEqual(gp, ep) {
+						pdw.Write(append(mustJSON(M{"src": src, "call": k, "op": c.Op, "kind": c.Kind, "choice": c.Choice, "expected": ep, "got": gp,
+							"expected_status": b.Exps[k].Status, "got_status": got.Status}), '\n'))
+					}
+				}
 				if !reflect.DeepEqual(got, b.Exps[k]) {
 					st.Drift++
 					if len(st.DriftEx) < 5 {
